@@ -293,6 +293,152 @@ def file_gate(out, mc):
     return []
 
 
+def _meta_writers(mc):
+    """LuaModuleIndex methods (from the MIR of the current tree) that can leave a file's ModuleInfo with
+    is_meta == false: they build a ModuleInfo, insert into / remove from file_module_map, assign `false`
+    to the flag, or call such a method.  Everything else taking &mut LuaModuleIndex keeps the flag."""
+    path = mc.mir("emmylua_code_analysis")
+    src = open(path).read()
+    i_meta = srcinfo.struct_fields(CA + "/db_index/module/module_info.rs", "ModuleInfo").index("is_meta")
+    bodies = {}
+    for m in re.finditer(r"^fn db_index::module::<impl at [^>]*>::(\w+)\((_1: &mut db_index::module::LuaModuleIndex[^\n]*)\{\n(.*?)^\}", src, re.S | re.M):
+        bodies[m.group(1)] = m.group(3)
+    direct = {}
+    for name, b in bodies.items():
+        why = []
+        if re.search(r"= (?:db_index::module::)?(?:module_info::)?ModuleInfo \{", b):
+            why.append("builds a ModuleInfo")
+        if re.search(r"HashMap::<(?:vfs::)?file_id::FileId, (?:db_index::module::)?module_info::ModuleInfo>::(insert|remove)", b):
+            why.append("inserts into / removes from file_module_map")
+        if re.search(r"\.%d: bool\) = const false" % i_meta, b):
+            why.append("assigns false to is_meta")
+        direct[name] = why
+    may = {n for n, w in direct.items() if w}
+    changed = True
+    while changed:
+        changed = False
+        for name, b in bodies.items():
+            if name in may:
+                continue
+            for other in list(may):
+                if re.search(r">::%s\(" % re.escape(other), b):
+                    may.add(name)
+                    direct[name] = ["calls " + other]
+                    changed = True
+                    break
+    return bodies, may, direct, i_meta
+
+
+def meta_flag(out, mc):
+    """M-C20-e: how a file gets (and keeps) the meta flag that gate (b) reads.
+    e1 set_meta writes true into file_module_map[file_id].is_meta; e2 is_meta_file returns exactly that field;
+    e3 on every path of analyze_doc_tag_meta, a set_meta(file_id) follows the last LuaModuleIndex call that can
+    clear the flag (e.g. add_module_by_module_path re-creating the ModuleInfo for `---@meta name`)."""
+    bodies, may, why, i_meta = _meta_writers(mc)
+    res = []
+    # e1 / e2 ---------------------------------------------------------------------------------------
+    ob1 = out.add(Obligation("meta_flag/set_meta_and_is_meta_file_agree", "M",
+                             "set_meta(f) stores true in the is_meta field of the entry HashMap::get_mut(&f) yields; is_meta_file(f) returns that "
+                             "field of the entry HashMap::get(f) yields and false when there is no entry",
+                             {"functions": ["LuaModuleIndex::set_meta", "LuaModuleIndex::is_meta_file"]}, []))
+    fails1 = []
+    t0 = time.time()
+    for nm in ("set_meta", "is_meta_file"):
+        fns = mc.fns("emmylua_code_analysis", r"db_index::module::<impl[^>]*>::%s\(" % nm)
+        cand = [f for f in fns if f.name.endswith("::" + nm)]
+        if len(cand) != 1:
+            raise RuntimeError("%s: %d candidates" % (nm, len(cand)))
+        fn = cand[0]
+        ob1.functions.append(fn.name)
+        ex = symex.Executor(fns)
+        paths = ex.run(fn)
+        if any(p.kind != "return" for p in paths) or len(paths) != 2:
+            fails1.append("%s: unexpected path structure %s" % (nm, [(p.kind, p.info) for p in paths]))
+            continue
+        for p in paths:
+            ev = mflow.find_event(p, r"HashMap::get_mut$" if nm == "set_meta" else r"HashMap::get$")
+            if ev is None:
+                fails1.append("%s does not look the file up in file_module_map" % nm)
+                continue
+            d = ex.discriminant(p.state, ev["result"])
+            is_some, _ = mc.check(list(p.pc) + [d.term != z3.BitVecVal(1, 64)], nm)
+            some = is_some == "unsat"
+            if nm == "set_meta":
+                wrote = False
+                for cid, cell in p.state.heap.items():
+                    if isinstance(cell, symex.Opaque) and "get_mut" in symex.kfmt(cell.k):
+                        w = cell.over.get(("field", i_meta))
+                        if isinstance(w, symex.BoolV) and z3.is_true(z3.simplify(w.term)):
+                            wrote = True
+                if some and not wrote:
+                    fails1.append("set_meta finds the entry but does not store true in is_meta")
+                if some:
+                    ob1.witness = True
+            else:
+                if some:
+                    org = ex.term_origins(p.ret.term) if isinstance(p.ret, symex.BoolV) else []
+                    if not (len(org) == 1 and "HashMap::get" in org[0] and org[0].rstrip("_) ").endswith(str(i_meta))):
+                        fails1.append("is_meta_file returns something other than the entry's is_meta field: %s" % org[:2])
+                else:
+                    if not (isinstance(p.ret, symex.BoolV) and z3.is_false(z3.simplify(p.ret.term))):
+                        fails1.append("is_meta_file without an entry does not return false")
+    ob1.solver_s = time.time() - t0
+    if fails1:
+        ob1.status = "pending"
+        ob1.detail = "; ".join(sorted(set(fails1)))
+        res.append((ob1, fails1))
+    else:
+        ob1.status = "pass"
+    # e3 ----------------------------------------------------------------------------------------------
+    fns = mc.fns("emmylua_code_analysis", r"analyze_doc_tag_meta")
+    cand = [f for f in fns if f.name.endswith("analyze_doc_tag_meta")]
+    if len(cand) != 1:
+        raise RuntimeError("analyze_doc_tag_meta: %d candidates" % len(cand))
+    fn = cand[0]
+    ex = symex.Executor(fns)
+    t0 = time.time()
+    paths = ex.run(fn)
+    out.extra_cov.setdefault("symbolic_execution", []).append(
+        {"function": fn.name, "blocks": len(fn.blocks), "paths": len(paths), "seconds": round(time.time() - t0, 2), **ex.stats})
+    ob2 = out.add(Obligation("meta_flag/meta_tag_leaves_flag_set", "M",
+                             "on every path of analyze_doc_tag_meta a set_meta(file_id) is executed, with the analyzer's own file id, after the last "
+                             "LuaModuleIndex call that can clear the flag (%s)" % ", ".join(sorted(may)),
+                             {"function": "analyze_doc_tag_meta", "paths": len(paths), "version_list_entries": "<= 2 (loop bound 3; longer lists are cut after the flag handling)"},
+                             [fn.name]))
+    ob2.extra["flag_clearing_methods"] = {n: why[n] for n in sorted(may)}
+    fails2 = []
+    named = 0
+    for p in paths:
+        if p.kind not in ("return", "cut"):
+            fails2.append("non-returning path: %s %s" % (p.kind, p.info))
+            continue
+        calls = [e for e in p.trace if "LuaModuleIndex::" in e.get("short", e["callee"])]
+        names = [e.get("short", e["callee"]).split("LuaModuleIndex::")[-1] for e in calls]
+        fid = mflow.find_event(p, r"DeclAnalyzer::get_file_id$")
+        last_clear = max([i for i, n in enumerate(names) if n in may], default=-1)
+        if last_clear >= 0:
+            named += 1
+        sets = [i for i, n in enumerate(names) if n == "set_meta" and i > last_clear]
+        if not sets:
+            fails2.append("a path ends with the flag possibly cleared: module-index calls %s" % names)
+            continue
+        e = calls[sets[-1]]
+        a = e["akeys"][1] if len(e.get("akeys", [])) > 1 else None
+        if fid is None or a is None or a != ex.deep_key(p.state, fid["result"]):
+            fails2.append("set_meta is called with something other than the analyzer's file id")
+    ob2.witness = named > 0
+    if named == 0:
+        fails2.append("no path reaches a flag-clearing call (the named `---@meta name` branch is gone?)")
+    ob2.solver_s = time.time() - t0
+    if fails2:
+        ob2.status = "pending"
+        ob2.detail = "; ".join(sorted(set(fails2)))[:600]
+        res.append((ob2, fails2))
+    else:
+        ob2.status = "pass"
+    return res
+
+
 def config_plumbing(out, mc):
     """M-C20-d: LuaDiagnosticConfig::new carries diagnostics.disable / enables / severity over unfiltered"""
     fns = mc.fns("emmylua_code_analysis", r"lua_diagnostic_config::<impl[^>]*>::new\(")
@@ -452,6 +598,18 @@ BATTERY = [
                                      "files": [{"name": "t.lua", "text": "---@foobar\nlocal _x = 1\n"}]},
      lambda r: not any(d["code"] == "unknown-doc-tag" for d in r.get("diagnostics", [])),
      "a code in diagnostics.enables is reported even though it is off by default"),
+    ("meta_bare", {"kind": "diagnose", "target": "m.lua", "emmyrc": {},
+                   "files": [{"name": "m.lua", "text": "---@meta\nprint(zzz_undefined_name)\n"}]},
+     lambda r: len(r.get("diagnostics", [])) > 0, "a `---@meta` file reports nothing"),
+    ("meta_named", {"kind": "diagnose", "target": "m.lua", "emmyrc": {},
+                    "files": [{"name": "m.lua", "text": "---@meta socket.core\nprint(zzz_undefined_name)\n"}]},
+     lambda r: len(r.get("diagnostics", [])) > 0, "a `---@meta name` file reports nothing"),
+    ("meta_named_versioned", {"kind": "diagnose", "target": "m.lua", "emmyrc": {},
+                              "files": [{"name": "m.lua", "text": "---@meta my.mod\n---@version 5.4\nprint(zzz_undefined_name)\n"}]},
+     lambda r: len(r.get("diagnostics", [])) > 0, "a versioned `---@meta name` file reports nothing"),
+    ("meta_hidden", {"kind": "diagnose", "target": "m.lua", "emmyrc": {},
+                     "files": [{"name": "m.lua", "text": "---@meta _\nprint(zzz_undefined_name)\n"}]},
+     lambda r: len(r.get("diagnostics", [])) > 0, "a `---@meta _` file reports nothing"),
     ("disabled_code_not_reported", {"kind": "diagnose", "target": "t.lua",
                                     "emmyrc": {"diagnostics": {"disable": ["undefined-global"]}},
                                     "files": [{"name": "t.lua", "text": "print(zzz_undefined_name)\nlocal x = 1\n"}]},
@@ -496,12 +654,13 @@ def replay_battery(out, ob, fails, role):
 def run(out):
     mc = mflow.MContext(out)
     out.functions = ["DiagnosticContext::is_checker_enable_by_code", "DiagnosticContext::add_diagnostic",
-                     "DiagnosticContext::get_severity", "LuaDiagnostic::diagnose_file", "LuaDiagnosticConfig::new"]
+                     "DiagnosticContext::get_severity", "LuaDiagnostic::diagnose_file", "LuaDiagnosticConfig::new",
+                     "LuaModuleIndex::set_meta", "LuaModuleIndex::is_meta_file", "analyze_doc_tag_meta"]
     out.bounds = {"paths": "all paths of the listed functions (loop-free)", "observations": "every callee result free (all valuations)"}
     out.outside = ["globals / globalsRegex (regex engine, interned strings)",
                    "whether every checker routes its reports through add_diagnostic",
                    "JSON/Lua configuration loading in front of Emmyrc (C31/C32)", "severity maps with more than 2 entries (loop bound)",
-                   "how the meta flag of a file is computed by the analyzer"]
+                   "that the decl analyzer reaches analyze_doc_tag_meta for every `---@meta` tag (tree walk); HashMap get/get_mut agree on the entry of a key"]
     out.assumptions = [
         "callee contracts: DiagnosticIndex::is_file_enabled/is_file_disabled, LuaModuleIndex::is_meta_file, HashSet::contains, "
         "is_code_default_enable are deterministic observers of their arguments (free Booleans keyed by callee and argument identity)",
@@ -513,6 +672,7 @@ def run(out):
         g = gating(out, mc)
         fg = file_gate(out, mc)
         cp = config_plumbing(out, mc)
+        mf = meta_flag(out, mc)
     except (symex.Unsupported, RuntimeError, KeyError, ValueError) as e:
         out.fatal = "engine M could not encode the current source: %r" % (e,)
         mc.finish()
@@ -525,6 +685,8 @@ def run(out):
         replay_battery(out, ob, fails, "file_gate")
     for ob, fails in cp:
         replay_battery(out, ob, fails, "config")
+    for ob, fails in mf:
+        replay_battery(out, ob, fails, "meta_flag")
     for ob in out.obligations:
         ob.solver_s = ob.solver_s or 0.0
     out.extra_cov["translator_validation"] = "see DESIGN.md §1.2(6); concrete-mode runs recorded by tools/validate_m.py"
